@@ -18,7 +18,8 @@ type Mutation struct {
 // Mutations enumerates single-field mutations of the value pointed to by ptr:
 // integers +1/-1, every fixed-size byte array (hashes, keys, addresses,
 // signatures) with its first and last byte flipped, currencies lo+1 / hi+1,
-// slices: each element recursively, drop last, duplicate last.
+// slices: each element recursively, drop last, duplicate last; 64-bit integers additionally with bit 63 / bit 32
+// flipped and set to the maximum; hash lists (Merkle proofs) extended to 63/64/65 entries.
 // skip(path) prunes subtrees.
 func Mutations(ptr any, skip func(path string) bool) []Mutation {
 	var out []Mutation
@@ -36,6 +37,14 @@ func Mutations(ptr any, skip func(path string) bool) []Mutation {
 			out = append(out, Mutation{path + "+1", func() { v.SetUint(old + 1) }, func() { v.SetUint(old) }})
 			if old > 0 {
 				out = append(out, Mutation{path + "-1", func() { v.SetUint(old - 1) }, func() { v.SetUint(old) }})
+			}
+			if v.Kind() == reflect.Uint64 {
+				// far values: comparisons through a signed difference or a narrower integer see these as small
+				out = append(out, Mutation{path + "^bit63", func() { v.SetUint(old ^ 1<<63) }, func() { v.SetUint(old) }})
+				out = append(out, Mutation{path + "^bit32", func() { v.SetUint(old ^ 1<<32) }, func() { v.SetUint(old) }})
+				if old != ^uint64(0) {
+					out = append(out, Mutation{path + "=max", func() { v.SetUint(^uint64(0)) }, func() { v.SetUint(old) }})
+				}
 			}
 		case reflect.Int64, reflect.Int:
 			if !v.CanSet() {
@@ -108,6 +117,20 @@ func Mutations(ptr any, skip func(path string) bool) []Mutation {
 				}, func() { v.Set(old) }})
 			} else if v.Type().Elem().Kind() == reflect.Array {
 				out = append(out, Mutation{path + "[append zero]", func() { v.Set(reflect.MakeSlice(v.Type(), 1, 1)) }, func() { v.Set(old) }})
+			}
+			if v.Type().Elem() == reflect.TypeOf(types.Hash256{}) {
+				// Merkle proofs: lengths at and beyond the accumulator's tree limit
+				for _, m := range []int{63, 64, 65} {
+					m := m
+					if m <= n {
+						continue
+					}
+					out = append(out, Mutation{fmt.Sprintf("%s[extend to %d]", path, m), func() {
+						nv := reflect.MakeSlice(v.Type(), m, m)
+						reflect.Copy(nv, old)
+						v.Set(nv)
+					}, func() { v.Set(old) }})
+				}
 			}
 		case reflect.Pointer:
 			if !v.IsNil() {
